@@ -332,7 +332,7 @@ func keys(m map[string]string) []string {
 
 func TestC10CrashPoints(t *testing.T) {
 	fw.Run(t, fw.Spec[crashCase]{
-		ID: "C10", Name: "crash_points", Quick: 72, Thorough: 2400,
+		ID: "C10", Name: "crash_points", Quick: 200, Thorough: 3200,
 		Gen: genCase, Check: checkCase,
 		Rule: "generated repositories (1-3 tables in CSV/TSV/JSON/JSONL/LTSV, some >64KiB, some reached through a symbolic link) and transactions (UPDATE/INSERT/DELETE on 1-3 tables, 0-2 CREATE TABLE) ending in COMMIT; a dry run logs every verification point passed from Transaction.Commit to process end; for EVERY such point the process is killed there (SIGKILL to itself) on a fresh copy; oracle: every pre-existing table exists and is byte-identical to its old or its new contents, and after deleting the hidden control files a fresh csvq can read and update every table; evaluations = kills; non-trivial = a kill after the first file-system mutation of the commit and before its last steps, distinct by (point name, hit index class, #updated, #created)",
 		Assumptions: []string{"crash = process death at a hooked point between file-system calls (SIGKILL); torn single write(2) calls and power loss are not modelled",
